@@ -231,7 +231,8 @@ def gen_path(r, regions, opts):
             enabled = not enabled
             if r.random() < (0.85 if opts.get("at_junk") else 0.4):
                 ops.append(("at", r.choice(["ExcludeRegion", "ExcludeRegion", "Other", "Region"]),
-                            r.choice(["bogus", "", "", " ", "offf", "turn off", "not on", "x off", "go on", "stop",
+                            r.choice(["", "", " "]) if r.random() < 0.3 else
+                            r.choice(["bogus", "offf", "turn off", "not on", "x off", "go on", "stop",
                                       "OFF", "ON", "Off", "On", "DISABLE", "Enable", "Skip-OFF", "Skip-ON",
                                       "skip-off", "skip-on"])))
         elif k < 0.96 and opts.get("arcs") and (absmode or opts.get("rel_arcs")) \
